@@ -32,7 +32,7 @@ type tableLine struct {
 	val  string
 }
 
-var keyWords = []string{"bob", "jack", "jill", "key1", "k", "200", "404", "GET", "/index.html", "a.b", "x=y", "é", "10.0.0.1", "Key1", "{v}", "q\"", "b\\s"}
+var keyWords = []string{"bob", "jack", "jill", "key1", "k", "200", "404", "GET", "/index.html", "a.b", "x=y", "é", "10.0.0.1", "{v}", "q\"", "b\\s"}
 var valWords = []string{"val1", "22", "93", "v", "-", "OK", "Not_Found", "é", "0", "{0}", "a,b"}
 
 func genLookup(t *rapid.T) Case {
@@ -52,6 +52,10 @@ func genLookup(t *rapid.T) Case {
 		k := rapid.SampledFrom(keyWords).Draw(t, "key")
 		if rapid.Bool().Draw(t, "suffix") {
 			k += itoa(rapid.Int64Range(0, 30).Draw(t, "n"))
+		}
+		if prefix != "" && rapid.IntRange(0, 5).Draw(t, "embed") == 0 {
+			// the comment prefix inside a key: only a line *starting* with it is a comment
+			k += prefix + "x"
 		}
 		if used[k] || (prefix != "" && strings.HasPrefix(k, prefix)) {
 			return "", false
@@ -93,6 +97,9 @@ func genLookup(t *rapid.T) Case {
 			if rapid.Bool().Draw(t, "vsuffix") {
 				v += itoa(rapid.Int64Range(0, 99).Draw(t, "vn"))
 			}
+			if prefix != "" && rapid.IntRange(0, 5).Draw(t, "vembed") == 0 {
+				v = rapid.SampledFrom([]string{prefix, prefix + v, v + prefix}).Draw(t, "vprefix")
+			}
 			lines = append(lines, tableLine{kind: "pair", text: k + sep() + v, key: k, val: v})
 		}
 	}
@@ -119,7 +126,7 @@ func genLookup(t *rapid.T) Case {
 			key = "nobody"
 		}
 	default:
-		key = rapid.SampledFrom([]string{"nobody", "", "bob", "val1", "#", "key", "KEY1", "too"}).Draw(t, "stranger")
+		key = rapid.SampledFrom([]string{"nobody", "", "bob", "val1", "#", "key", "too"}).Draw(t, "stranger")
 	}
 	c.Args = []Arg{mkArg(t, 0, key, false), konst(sb.String())}
 	if prefix != "" {
@@ -175,19 +182,19 @@ func parseTable(text, prefix string) (pairs map[string]string, ignored map[strin
 
 func fieldsOf(s string) []string {
 	var out []string
-	cur := ""
+	start := -1
 	for i := 0; i < len(s); i++ {
 		if s[i] == ' ' || s[i] == '\t' {
-			if cur != "" {
-				out = append(out, cur)
-				cur = ""
+			if start >= 0 {
+				out = append(out, s[start:i])
+				start = -1
 			}
-		} else {
-			cur += string(s[i])
+		} else if start < 0 {
+			start = i
 		}
 	}
-	if cur != "" {
-		out = append(out, cur)
+	if start >= 0 {
+		out = append(out, s[start:])
 	}
 	return out
 }
@@ -219,6 +226,14 @@ func checkLookup(c Case) error {
 	c.Obs.Label(prefix != "", "comment-prefix")
 	c.Obs.Label(len(pairs) == 0, "no-pairs")
 	c.Obs.Label(strings.Contains(v[1], "\t"), "tab-separated")
+	if prefix != "" {
+		for k, pv := range pairs {
+			if strings.Contains(k, prefix) || strings.Contains(pv, prefix) {
+				c.Obs.Label(true, "prefix-inside-pair-line")
+				break
+			}
+		}
+	}
 	if c.Fn == "haskey" {
 		return wantTruth(c, r, has)
 	}
@@ -236,7 +251,7 @@ func classifyLookup(c Case) (bool, []string) {
 var specLookup = pbt.Spec[Case]{
 	Property: prop, Name: "lookup",
 	Rule:     "lookup/haskey against a generated constant table of 0-8 lines (key/value pairs separated by blanks or tabs, comment lines when a prefix is given, blank lines, lines with 3-4 fields; unique keys) with or without a comment prefix (#, //, ;, --); the probed key (constant/group/key) is a pair key, a key that only occurs on an ignored line, a value word or a stranger; oracle: the pair lines. Non-trivial: non-empty table",
-	Budget:   pbt.Budget{Quick: 40000, Thorough: 2000000},
+	Budget:   pbt.Budget{Quick: 12000, Thorough: 96000},
 	Gen:      genLookup,
 	Check:    checkLookup,
 	Classify: classifyLookup,
@@ -339,7 +354,7 @@ func classifyPath(c Case) (bool, []string) { return true, baseLabels(c) }
 var specPath = pbt.Spec[Case]{
 	Property: prop, Name: "path",
 	Rule:     "basename/dirname/extname of a path assembled from 0-4 directory components (some with dots, blanks, braces, non-ASCII) and a file name with at most one dot, relative or absolute, via constant/group/key; expected answers come from the components. Every case non-trivial",
-	Budget:   pbt.Budget{Quick: 20000, Thorough: 1000000},
+	Budget:   pbt.Budget{Quick: 6000, Thorough: 48000},
 	Gen:      genPath,
 	Check:    checkPath,
 	Classify: classifyPath,
@@ -474,7 +489,7 @@ func classifyCSV(c Case) (bool, []string) {
 var specCSV = pbt.Spec[Case]{
 	Property: prop, Name: "csv",
 	Rule:     "{csv a..} with 1-6 values drawn from empty, plain, arbitrary bytes, and strings over {a b , \" LF CR blank '} up to 6 long, via constant/group/key; the output must parse, with a strict RFC 4180 single-record parser, back to exactly the arguments. Non-trivial: some value is empty or holds comma, quote, CR or LF",
-	Budget:   pbt.Budget{Quick: 50000, Thorough: 2500000},
+	Budget:   pbt.Budget{Quick: 15000, Thorough: 120000},
 	Gen:      genCSV,
 	Check:    checkCSV,
 	Classify: classifyCSV,
